@@ -22,7 +22,7 @@ def norm_fold(items: Assoc(Any), acc: Dict) -> Dict:
     return norm_fold(items[1:], dict_put(acc, norm_key(items[0][0]), items[0][1]))
 
 
-@contract(CP + "_normalize_config_keys", props=["C05", "C20"], types=dict(config=Assoc(Any), normalized=Dict, key=Str, value=Any,
+@contract(CP + "_normalize_config_keys", props=["C05", "C20", "C18"], types=dict(config=Assoc(Any), normalized=Dict, key=Str, value=Any,
                                                                            normalized_key=Str), returns=Dict)
 class NormalizeConfigKeys:
     def ensures_fold(config, result):
